@@ -24,14 +24,16 @@ RELAX = "(dist[edges[{0}][0]] != inf() and dist[edges[{0}][0]] + edges[{0}][2] <
 COMMON = [
     "len(dist) == n_nodes", "len(parent) == n_nodes", "0 <= start < n_nodes",
     "dist[start] <= 0",
-    "forall(v, implies(0 <= v < n_nodes, dist[v] <= inf()), trig=dist[v])",
+    "forall(v, implies(0 <= v < n_nodes, -inf() < dist[v] and dist[v] <= inf()), trig=dist[v])",
     "forall(v, implies(0 <= v < n_nodes and dist[v] != inf(), Reach(v, dist[v])), trig=dist[v])",
     # parent pointers: an edge of the input whose relaxation produced the label (tight once nothing can be relaxed)
     "forall(v, implies(0 <= v < n_nodes, parent[v] == -1 or (0 <= parent[v] < n_nodes and dist[parent[v]] != inf() and dist[v] != inf() and exists(k, 0 <= k < len(edges) and edges[k][0] == parent[v] and edges[k][1] == v and dist[v] >= dist[parent[v]] + edges[k][2]))), trig=parent[v])",
 ]
-REG.fn(B, "bellman_ford", prop="C11", ret="Result[opaque]", raises_ok=True,
+REG.fn(B, "bellman_ford", prop="C11", ret="Result[opaque]", raises_ok=True, strict_inf=True,
        types={"edges": E, "dist": "list[real]", "parent": "list[int]", "path": "list[int]"},
        requires=[
+           # finite weights: with them no arithmetic operator ever sees +-inf (`strict_inf`: proved, not assumed)
+           "forall(k, implies(0 <= k < len(edges), -inf() < edges[k][2] and edges[k][2] < inf()), trig=edges[k])",
            # definition of the ghost relation by its closure rules (the least such relation is 'walk from start of length d')
            "Reach(start, 0.0)",
            "forall(k, d, implies(0 <= k < len(edges) and Reach(edges[k][0], d), Reach(edges[k][1], d + edges[k][2])), sorts={'d': 'real'}, trig=((edges[k], Reach(edges[k][0], d)),))",
@@ -60,7 +62,7 @@ REG.fn(B, "bellman_ford", prop="C11", ret="Result[opaque]", raises_ok=True,
 D = "solvor/dijkstra.py"
 REG.ghostfn("Edge", ["U<S>", "U<S>", "real"], "bool")  # Edge(u, v, w): neighbors(u) offers (v, w)   (used by astar)
 REG.callback("dnbr", ["U<S>"], "list[tuple[U<S>,real]]", pure=False,
-             post="forall(i, implies(0 <= i < len(result), Edge(a0, result[i][0], result[i][1]) and result[i][1] >= 0), trig=result[i])")
+             post="forall(i, implies(0 <= i < len(result), Edge(a0, result[i][0], result[i][1]) and result[i][1] >= 0 and result[i][1] < inf()), trig=result[i])")
 REG.callback("isgoal", ["U<S>"], "bool", pure=False)
 # for the certificate the graph must be a function of the node: N(u) = neighbors(u) (pure), goalp = the goal test (pure)
 REG.callback("N", ["U<S>"], "list[tuple[U<S>,real]]", pure=True)
@@ -79,7 +81,7 @@ DJ = [
     # every open labelled node has an entry carrying its current label (ghost index map `where`)
     "forall(v, implies(has(g, v) and not has(closed, v), 0 <= where[v] < len(heap) and heap[where[v]][2] == v and heap[where[v]][0] == get(g, v)), sorts={'v': 'U<S>'}, trig=has(g, v))",
 ]
-REG.fn(D, "dijkstra", prop="C11", ret="Result[opt[list[U<S>]]]",
+REG.fn(D, "dijkstra", prop="C11", ret="Result[opt[list[U<S>]]]", strict_inf=True,
        types={"goal": "opaque", "neighbors": "fun:N", "is_goal": "fun:goalp", "max_cost": "opt[real]",
               "pi": "map[U<S>,int]", "where": "map[U<S>,int]", "path": "list[U<S>]"},
        requires=["is_none(max_cost)",  # the certificate below is for searches without a cost limit
@@ -117,17 +119,18 @@ REG.fn(D, "dijkstra", prop="C11", ret="Result[opt[list[U<S>]]]",
 
 # ------------------------------------------------------------------ astar: same path-validity contract
 A = "solvor/a_star.py"
-REG.callback("heur", ["U<S>"], "real", pure=False)
+REG.callback("heur", ["U<S>"], "real", pure=False, post="-inf() < result and result < inf()")
 DI = [
     "has(g, start)", "get(g, start) == 0", "not has(parent, start)",
-    "forall(v, implies(has(g, v), get(g, v) >= 0), sorts={'v': 'U<S>'}, trig=has(g, v))",
+    "forall(v, implies(has(g, v), get(g, v) >= 0 and get(g, v) < inf()), sorts={'v': 'U<S>'}, trig=has(g, v))",
     "forall(v, implies(has(g, v) and v != start, has(parent, v)), sorts={'v': 'U<S>'}, trig=has(g, v))",
     "forall(v, implies(has(parent, v), has(g, v) and has(g, get(parent, v)) and has(closed, get(parent, v)) and Edge(get(parent, v), v, pw[v]) and get(g, v) == get(g, get(parent, v)) + pw[v]), sorts={'v': 'U<S>'}, trig=has(parent, v))",
     "forall(v, implies(has(closed, v), has(g, v)), sorts={'v': 'U<S>'}, trig=has(closed, v))",
     "forall(j, implies(0 <= j < len(heap), has(g, heap[j][2])), trig=heap[j])",
 ]
 AI = [x.replace("heap[j][2]", "heap[j][3]") for x in DI]
-REG.fn(A, "astar", prop="C11", ret="Result[opt[list[U<S>]]]",
+REG.fn(A, "astar", prop="C11", ret="Result[opt[list[U<S>]]]", strict_inf=True,
+       requires=["-inf() < weight and weight < inf()"],
        types={"goal": "opaque", "neighbors": "fun:dnbr", "heuristic": "fun:heur", "is_goal": "fun:isgoal", "max_cost": "opt[real]",
               "weight": "real", "pw": "map[U<S>,real]", "path": "list[U<S>]"},
        ghost_before=[("g: dict[S, float] = {start: 0.0}", "pw", "lam(v, 0.0, sort='U<S>')")],
